@@ -25,7 +25,7 @@ ASSUMPTIONS = [
     "monotonicity law evaluated on trees without negated rows (a negated row is meant to be dropped under cant_delete)",
     "juniper 'inactive:' rows are not generated",
 ]
-FLOORS = {"quick": {"filters_compared": 3000, "strict_raises_agreed": 300, "strict_passes_agreed": 100, "monotone_checked": 1000, "idempotent_checked": 3000, "explicit_negated_rule_cases": 400, "production_merges_checked": 1500, "diff_texts_filtered": 600, "ignore_rule_filters": 300, "slash_regex_filters": 300, "rows_under_an_inherited_global_rule_two_or_more_levels_down": 300, "acl_lines_with_tab_before_params": 2000, "acl_comment_lines_inside_blocks": 500, "inactive_row_filters": 600, "filters_of_partly_annotated_trees": 1500},
+FLOORS = {"quick": {"filters_compared": 3000, "strict_raises_agreed": 300, "strict_passes_agreed": 100, "monotone_checked": 1000, "idempotent_checked": 3000, "explicit_negated_rule_cases": 400, "production_merges_checked": 1500, "diff_texts_filtered": 600, "ignore_rule_filters": 300, "slash_regex_filters": 300, "rows_under_an_inherited_global_rule_two_or_more_levels_down": 300, "acl_lines_with_tab_before_params": 2000, "acl_comment_lines_inside_blocks": 500, "inactive_row_filters": 600, "filters_of_partly_annotated_trees": 1500, "acl_rules_with_params_on_a_continuation_line": 300, "moved_rows_in_filtered_diff_texts": 500},
           "thorough": {"filters_compared": 100000, "strict_raises_agreed": 10000, "strict_passes_agreed": 3000, "monotone_checked": 30000, "idempotent_checked": 100000, "explicit_negated_rule_cases": 12000, "production_merges_checked": 50000, "diff_texts_filtered": 20000, "ignore_rule_filters": 10000, "slash_regex_filters": 5000}}
 VENDORS = ["huawei", "cisco", "pc", "routeros", "juniper", "arista"]
 KNOWN_WINNER = "C06/children-rules-lost-when-global-or-negated-match-outranks-local"
@@ -149,6 +149,23 @@ def commented(text, rng):
     return "\n".join(out)
 
 
+def continued(text, rng):
+    """the parameters of some rules on a line of their own below the rule (`rule` / `    %global`), sometimes after an empty line: the rule reader
+    joins such a line to the row above it"""
+    out = []
+    for ln in text.split("\n"):
+        i = ln.find(" %")
+        if i > 0 and "\t" not in ln and not ln.strip().startswith(("#", "!")) and rng.random() < 0.2:
+            ind = " " * (len(ln) - len(ln.lstrip(" ")))
+            out.append(ln[:i].rstrip())
+            if rng.random() < 0.5:
+                out.append("")
+            out.append(ind + "    " + ln[i:].strip())
+        else:
+            out.append(ln)
+    return "\n".join(out)
+
+
 def make_case(seed, negpair=False, deep=False):
     rng = random.Random(seed)
     vname = VENDORS[rng.randrange(len(VENDORS))]
@@ -226,7 +243,8 @@ def check_case(seed, acc, negpair=False, deep=False):
     texts = {k: A.render(v) for k, v in acls.items()}
     if deep:
         trng = random.Random(seed ^ 0x7AB)
-        texts = {k: commented(tabbed(v, trng), trng) for k, v in texts.items()}
+        texts = {k: continued(commented(tabbed(v, trng), trng), trng) for k, v in texts.items()}
+        acc.count("acl_rules_with_params_on_a_continuation_line", sum(1 for v in texts.values() for ln in v.split("\n") if ln.strip().startswith("%")))
         acc.count("acl_comment_lines_inside_blocks", sum(1 for v in texts.values() for ln in v.split("\n") if ln.startswith(" ") and ln.strip().startswith("#")))
         acc.count("acl_lines_with_tab_before_params", sum(1 for v in texts.values() for ln in v.split("\n") if "\t%" in ln))
     texts["A+B"] = texts["A"] + "\n" + texts["B"]
@@ -361,7 +379,9 @@ def check_case(seed, acc, negpair=False, deep=False):
         def signed(tree_, depth, inherited):
             out = []
             for row, ch in tree_:
-                sg = inherited or drng.choice(["-", "+", " ", " "])
+                sg = inherited or drng.choice(["-", "+", " ", " "] + ([">", ">"] if deep else []))  # (`>`: a row that moved inside an ordered list)
+                if sg == ">":
+                    acc.count("moved_rows_in_filtered_diff_texts")
                 out.append("%s %s%s" % (sg, "  " * depth, row))
                 out += signed(ch, depth + 1, sg if sg in "-+" else None)
             return out
@@ -371,7 +391,7 @@ def check_case(seed, acc, negpair=False, deep=False):
             for ln in text_.split("\n"):
                 if not ln.strip():
                     continue
-                body = ln[2:] if ln[0] in "+-" else ln[1:]  # filter_diff prints `<sign> <indent>row` for +/- and ` <indent>row` for kept rows
+                body = ln[2:] if ln[0] in "+->" else ln[1:]  # filter_diff prints `<sign> <indent>row` for +/- and ` <indent>row` for kept rows
                 d_ = (len(body) - len(body.lstrip(" "))) // 2
                 stack[d_:] = [body.strip()]
                 out.append(tuple(stack))
